@@ -230,7 +230,7 @@ class Exec(Interp):
             if ak == "array":
                 if len(ops) <= 32:
                     return Arr(ops)
-                ln = self.const_sym(len(ops), self.usize_rng(), S)
+                ln = self.const_sym(len(ops), self.len_rng(), S)
                 return Seq("array", ln, self.join_vals(S, ops, site), (), None, frozenset())
             if ak == "adt":
                 adt = self.f.adt_by_path.get(rv["path"])
@@ -251,7 +251,7 @@ class Exec(Interp):
             n = rv["n"]
             if n is not None and n <= 32:
                 return Arr([v] * n)
-            ln = self.const_sym(n or 0, self.usize_rng(), S)
+            ln = self.const_sym(n or 0, self.len_rng(), S)
             return Seq("array", ln, v, (), None, frozenset())
         if k == "thread_local_ref":
             return Opaque()
@@ -267,8 +267,8 @@ class Exec(Interp):
         if isinstance(v, Seq):
             return Scalar(v.len)
         if isinstance(v, Arr):
-            return Scalar(self.const_sym(len(v.elems), self.usize_rng(), S))
-        return Scalar(self.fresh(("v",) + site + ("len",), self.usize_rng(), S, D.rng(0, self.max_len())))
+            return Scalar(self.const_sym(len(v.elems), self.len_rng(), S))
+        return Scalar(self.fresh(("v",) + site + ("len",), self.len_rng(), S, D.rng(0, self.max_len())))
 
     # ------------------------------------------------------------------ discriminants
     def variant_discrs(self, path):
@@ -579,6 +579,161 @@ class Exec(Interp):
             if any(nw[k] is not w[k] for k in w):
                 S.when[s] = nw
 
+    def dominators(self, inst):
+        d = inst.get("_dom")
+        if d is not None:
+            return d
+        blocks = inst["body"]["blocks"]
+        preds = self.preds_of(inst)
+        rpo = self.rpo_of(inst)
+        order = sorted(rpo, key=lambda b: rpo[b])
+        allb = set(order)
+        dom = {b: set(allb) for b in order}
+        dom[0] = {0}
+        changed = True
+        while changed:
+            changed = False
+            for b in order:
+                if b == 0:
+                    continue
+                ps = [p for p in preds.get(b, []) if p in dom]
+                if not ps:
+                    continue
+                new = set.intersection(*[dom[p] for p in ps]) | {b}
+                if new != dom[b]:
+                    dom[b] = new
+                    changed = True
+        inst["_dom"] = dom
+        return dom
+
+    def forall_rule(self, inst, frame, h, inputs, edges):
+        """Validation-loop rule (DESIGN §3.6): for a counting loop `i = 0; while i < len(A) { ..A[i].. ; i += 1 }`
+        facts about the element read at index i that hold on every back edge are generalised to every
+        element of A on the exit edge where i >= len(A).  Returns the list of exit targets to re-process."""
+        body = self.loop_body(inst, h)
+        J = inputs.get(h)
+        if J is None:
+            return []
+        preds = self.preds_of(inst)
+        back = [p for p in preds.get(h, []) if p in body and (p, h) in edges and not edges[(p, h)].dead]
+        entry = [p for p in (["entry"] if h == 0 else []) + preds.get(h, []) if p not in body and (p, h) in edges]
+        if not back or not entry:
+            return []
+        dom = self.dominators(inst)
+        requeue = []
+        for cell, v in list(J.cells.items()):
+            if not (isinstance(cell, tuple) and len(cell) == 2 and cell[0] == frame and isinstance(v, Scalar)):
+                continue
+            i = v.sym
+            key = self.st.keys[i]
+            if not (isinstance(key, tuple) and key[0] == "phi" and key[1] == (frame, h)):
+                continue
+            # i starts at 0 and is incremented by exactly 1 on every back edge
+            ok = True
+            for p in entry:
+                ev = edges[(p, h)].cells.get(cell)
+                if not (isinstance(ev, Scalar) and edges[(p, h)].ivof(ev.sym) == D.point(0)):
+                    ok = False
+            for p in back:
+                B = edges[(p, h)]
+                bv = B.cells.get(cell)
+                if not (isinstance(bv, Scalar) and B.lin.get(bv.sym) == Lin({i: 1}, 1)):
+                    ok = False
+            if not ok:
+                continue
+            # element symbols read at index i
+            per_seq = {}
+            for e, (ln, idx, blk, fpath) in self.elem_of.items():
+                if idx != i or blk not in body:
+                    continue
+                if self.defined_in_loop(ln, frame, body):
+                    continue
+                if not all(blk in dom.get(p, ()) for p in back):
+                    continue
+                per_seq.setdefault(ln, []).append((e, fpath))
+            for ln, elems in per_seq.items():
+                templates = None
+                for p in back:
+                    B = edges[(p, h)]
+                    cur = set()
+                    for e, fpath in elems:
+                        if e not in B.iv:
+                            continue
+                        for f in B.facts:
+                            if e not in f.t:
+                                continue
+                            others = [x for x in f.t if x != e]
+                            if any(x in self.elem_of for x in others):
+                                continue
+                            if any(self.defined_in_loop(x, frame, body) for x in others):
+                                continue
+                            cur.add((fpath, f.rename({e: ("ELEM",)})))
+                        iv = B.ivof(e)
+                        r = self.st.range(e)
+                        if iv and D.lo(iv) > r[0]:
+                            cur.add((fpath, Lin({("ELEM",): -1}, D.lo(iv))))
+                        if iv and D.hi(iv) < r[1]:
+                            cur.add((fpath, Lin({("ELEM",): 1}, -D.hi(iv))))
+                    templates = cur if templates is None else self._weaken_templates(templates, cur)
+                if not templates:
+                    continue
+                # exit edges on which i >= len(A)
+                for b in body:
+                    for tgt in self.succs(inst["body"]["blocks"][b]):
+                        if tgt in body or (b, tgt) not in edges:
+                            continue
+                        U = edges[(b, tgt)]
+                        if U.dead or not U.entails(U.term(ln).sub(U.term(i))):
+                            continue
+                        U = U.copy()  # the edge state may be aliased by the target's stored input
+                        edges[(b, tgt)] = U
+                        if self._attach_efacts(U, ln, templates):
+                            self.forall_established.append({"function": inst["name"], "loop_head": h, "facts": sorted("%s: %r <= 0" % (fp, l) for fp, l in templates)})
+                            if tgt not in requeue:
+                                requeue.append(tgt)
+        return requeue
+
+    @staticmethod
+    def _weaken_templates(a, b):
+        """Templates that hold on both back edges (bound templates are weakened to the looser bound)."""
+        out = set()
+        for fp, l in a:
+            if (fp, l) in b:
+                out.add((fp, l))
+                continue
+            if len(l.t) == 1:  # ELEM bound: k*ELEM + c <= 0
+                for fp2, l2 in b:
+                    if fp2 == fp and l2.t == l.t:
+                        out.add((fp, l if l.c >= l2.c else l2))
+        return out
+
+    def _attach_efacts(self, U, ln, templates):
+        changed = [False]
+
+        def walk(v, depth=0):
+            if isinstance(v, Seq):
+                if v.len == ln:
+                    new = tuple(t for t in templates if t not in v.efacts)
+                    if new:
+                        changed[0] = True
+                        return Seq(v.kind, v.len, v.elem, v.efacts + new, v.data, v.prov)
+                return v
+            if depth > 5:
+                return v
+            if isinstance(v, Struct):
+                fs = [walk(f, depth + 1) for f in v.fields]
+                return v if all(a is b for a, b in zip(fs, v.fields)) else Struct(v.path, fs)
+            if isinstance(v, Enum):
+                nv = {k: tuple(walk(f, depth + 1) for f in fs) for k, fs in v.variants.items()}
+                return v if all(all(a is b for a, b in zip(nv[k], v.variants[k])) for k in nv) else Enum(v.path, nv, v.when)
+            return v
+
+        for c, v in list(U.cells.items()):
+            nv = walk(v)
+            if nv is not v:
+                U.cells[c] = nv
+        return changed[0]
+
     def preds_of(self, inst):
         pm = inst.get("_preds")
         if pm is None:
@@ -609,6 +764,7 @@ class Exec(Interp):
         rpo = self.rpo_of(inst)
         widened = set()
         narrowing = False
+        forall_done = False
         nvis = {}
         while True:
           while work:
@@ -634,7 +790,27 @@ class Exec(Interp):
             old = inputs.get(bi)
             if old is not None:
                 if narrowing:
-                    if bi in heads:
+                    if bi in heads and forall_done:
+                        # final re-propagation: keep the stable head state; sequences that the loop
+                        # does not modify take the (new) element facts of the entry edges
+                        Jn = old.copy()
+                        body_ = self.loop_body(inst, bi)
+                        ent = [edges[(p_, bi)] for p_ in srcs if (p_, bi) in edges and p_ not in body_ and not edges[(p_, bi)].dead]
+                        bks = [edges[(p_, bi)] for p_ in srcs if (p_, bi) in edges and p_ in body_ and not edges[(p_, bi)].dead]
+                        for c_, v_ in old.cells.items():
+                            if not isinstance(v_, Seq) or not ent:
+                                continue
+                            if not all(isinstance(B_.cells.get(c_), Seq) and B_.cells[c_].len == v_.len and B_.cells[c_].elem is v_.elem for B_ in bks):
+                                continue
+                            evs = [E_.cells.get(c_) for E_ in ent]
+                            if not all(isinstance(e_, Seq) and e_.len == v_.len and e_.elem is v_.elem for e_ in evs):
+                                continue
+                            ef = [t_ for t_ in evs[0].efacts if all(t_ in e_.efacts for e_ in evs[1:])]
+                            new_ = tuple(t_ for t_ in ef if t_ not in v_.efacts)
+                            if new_:
+                                Jn.cells[c_] = Seq(v_.kind, v_.len, v_.elem, v_.efacts + new_, v_.data, v_.prov)
+                        J = Jn
+                    elif bi in heads:
                         nvis[bi] = nvis.get(bi, 0) + 1
                         if nvis[bi] > 2:
                             continue
@@ -695,6 +871,14 @@ class Exec(Interp):
             if "return" not in seen_t and bi in rets:
                 del rets[bi]
           if narrowing or not widened or os.environ.get('NO_NARROW'):
+            # last phase: validation-loop rule on the final loop states, then re-propagate from the exits
+            if not forall_done and heads:
+                forall_done = True
+                narrowing = True  # no further widening; heads re-visited at most twice more
+                for h_ in sorted(heads):
+                    work.extend(t_ for t_ in self.forall_rule(inst, frame, h_, inputs, edges) if t_ not in work)
+                if work:
+                    continue
             break
           # decreasing iterations from the post-fixpoint: recompute widened loop heads without widening
           narrowing = True
@@ -1059,6 +1243,11 @@ class Exec(Interp):
             S.dead = True
             return None
         ret = R.cells.get((frame, 0), Struct("tuple", []))
+        from . import lemmas
+
+        ret, used = lemmas.apply_contract(self, R, callee, args, ret)
+        if used:
+            self.contract_uses[callee["name"]] = self.contract_uses.get(callee["name"], 0) + 1
         for h in self.hooks:
             h("leave", interp=self, inst=callee, ret=ret, state=R, site=site)
         # drop the callee frame, keep everything else (callee may have written through &mut)
